@@ -2935,7 +2935,7 @@ static int32_t parseGeneralNames(psPool_t *pool, const unsigned char **buf,
     x509GeneralName_t **name, int16_t limit)
 {
     psSize_t otherNameLen;
-    const unsigned char *p, *c, *save, *end;
+    const unsigned char *p, *c, *save, *end, *otherEnd;
     x509GeneralName_t *activeName, *firstName, *prevName;
     psSize_t terminating_nils = 1; /* terminating zero. */
 
@@ -2988,7 +2988,16 @@ static int32_t parseGeneralNames(psPool_t *pool, const unsigned char **buf,
             Memset(activeName, 0x0, sizeof(x509GeneralName_t));
             activeName->pool = pool;
         }
-        activeName->id = (x509GeneralNameType_t) (*p & 0xF);
+        /* GeneralName is a CHOICE of context-specific tags [0]..[8]: an
+           element of another class or number is not a GeneralName (and must
+           not be taken for the one with the same low four tag bits) */
+        if ((*p & 0xC0) != ASN_CONTEXT_SPECIFIC || (*p & 0x1F) > GN_REGID)
+        {
+            psTraceCrypto("ASN parse error: not a GeneralName tag\n");
+            return PS_PARSE_FAIL;
+        }
+        activeName->id = (x509GeneralNameType_t) (*p & 0x1F);
+        otherEnd = NULL;
         p++; len--;
         switch (activeName->id)
         {
@@ -3007,6 +3016,9 @@ static int32_t parseGeneralNames(psPool_t *pool, const unsigned char **buf,
                 psTraceCrypto("ASN parse error SAN otherName\n");
                 return PS_PARSE_FAIL;
             }
+            /* The value parsed below must end exactly where the otherName
+               ends; bytes inside it are not further GeneralNames */
+            otherEnd = p + otherNameLen;
 
             if (*(p++) != ASN_OID)
             {
@@ -3044,7 +3056,8 @@ static int32_t parseGeneralNames(psPool_t *pool, const unsigned char **buf,
             p++;     /* Jump over A0 */
             if (getAsnLength(&p, (uint32) (extEnd - p), &otherNameLen) < 0 ||
                 otherNameLen < 1 ||
-                (uint32) (extEnd - p) < otherNameLen)
+                (uint32) (extEnd - p) < otherNameLen ||
+                p + otherNameLen != otherEnd)
             {
                 psTraceCrypto("ASN parse error SAN otherName value\n");
                 return PS_PARSE_FAIL;
@@ -3121,7 +3134,8 @@ static int32_t parseGeneralNames(psPool_t *pool, const unsigned char **buf,
         {
             len -= (p - save);
         }
-        if (len < activeName->dataLen)
+        if (len < activeName->dataLen ||
+            (otherEnd != NULL && p + activeName->dataLen != otherEnd))
         {
             psTraceCrypto("ASN len error in parseGeneralNames\n");
             return PS_PARSE_FAIL;
